@@ -17,13 +17,22 @@ PROP = {
             "component": "wsstream",
             "quick": {"gen": [(20000, 24)], "enum": [(4, 2), (3, 1)]},
             "thorough": {"gen": [(60000, 36)], "enum": [(4, 2), (5, 2), (4, 1)]},
+        }, {
+            # byte level: declared lengths in every header form, including 64-bit lengths far over the maximum and with the top
+            # bit set (the frame-level component above always declares the real payload length)
+            "component": "wsdecode",
+            "quick": {"gen": [(3000, 30)]},
+            "thorough": {"gen": [(30000, 40)]},
         }],
+        "keys": ["wsstream.*", "wsdecode.bounded", "wsdecode.panic", "wsdecode.frame"],
         "rule": "same component as C08; half of the generated scripts are single-violation mutations of conforming sessions (reserved "
                 "bits, reserved opcode 3-7/0xB-0xF, masked frame, control frame without FIN, control payload > 125, continuation "
                 "with nothing to continue, new data frame inside a fragmented message, frame over the maximum) injected at a random "
                 "position, possibly behind queued conforming frames, read through NextFrame/AsyncNextFrame/NextMessage/AsyncNextMessage "
                 "with caller buffers of size 0, 1, small, max, 2*max+8, then followed by writes/flush/close/reads; exhaustive = every "
-                "sequence of 3-5 events over a 15-event alphabet of violations, fragments and message reads; non-trivial/distinct as in C08",
+                "sequence of 3-5 events over a 15-event alphabet of violations, fragments and message reads; non-trivial/distinct as in C08; plus the "
+                "byte-level decoder component of C07 (`wsdecode`: declared lengths in every header form relative to the maximum, incl. 2^32, 2^62, "
+                "2^63-1, 2^63, 2^63+k, 2^64-1) for the clause that a frame larger than the maximum is refused (keys wsdecode.bounded/frame/panic)",
         "trusted_base": WS_TB,
         "assumptions": [
             "OpsOk: the application writes text/binary messages and does not send Close frames itself through WriteFrame/Write",
